@@ -11,9 +11,11 @@ import (
 	"encoding/json"
 	"fmt"
 	"os"
+	"path/filepath"
 	"strconv"
 	"strings"
 	"sync"
+	"syscall"
 	"time"
 
 	"verifharness/vf"
@@ -21,7 +23,80 @@ import (
 
 const propNum = 11
 
+// relaxRaceDetector: the driver is built with -race for checkptr, but it links the engine
+// package, whose init starts a compactor goroutine that races on a statistics gauge every
+// 10 s (engine.(*Compactor).statOutOfOrderFiles -> MergeStatistics.SetCurrentOutOfOrderFile).
+// With GORACE=halt_on_error=1 that report would kill the monitor after ~20 s. Statistics
+// races are outside every property (DESIGN 4.4), so the process re-executes itself once
+// with race reports redirected to files in the scratch directory; the parent inspects
+// them at the end (raceReports) and reports any race that is not in the statistics
+// package. checkptr failures stay fatal.
+func relaxRaceDetector() {
+	if !raceEnabled || os.Getenv("C11_GORACE_SET") != "" {
+		return
+	}
+	dir := os.Getenv("VERIF_SCRATCH")
+	if dir == "" {
+		dir = fmt.Sprintf("/var/tmp/verif-scratch/C11-%d", os.Getpid())
+	}
+	_ = os.MkdirAll(dir, 0o755)
+	exe, err := os.Executable()
+	if err != nil {
+		return
+	}
+	var env []string
+	for _, e := range os.Environ() {
+		if !strings.HasPrefix(e, "GORACE=") {
+			env = append(env, e)
+		}
+	}
+	env = append(env, "GORACE=halt_on_error=0 exitcode=0 log_path="+dir+"/race", "C11_GORACE_SET="+dir, "VERIF_SCRATCH="+dir)
+	_ = syscall.Exec(exe, os.Args, env)
+}
+
+// raceReports classifies the race detector's reports of this process and its workers.
+func raceReports(c *vf.Ctx) {
+	dir := os.Getenv("C11_GORACE_SET")
+	if dir == "" {
+		return
+	}
+	files, _ := filepath.Glob(filepath.Join(dir, "race.*"))
+	for _, f := range files {
+		b, err := os.ReadFile(f)
+		if err != nil {
+			continue
+		}
+		for _, rep := range strings.Split(string(b), "WARNING: DATA RACE")[1:] {
+			// the first frame of each access
+			lines := strings.Split(rep, "\n")
+			var tops []string
+			for i, ln := range lines {
+				t := strings.TrimSpace(ln)
+				if (strings.HasPrefix(t, "Write at") || strings.HasPrefix(t, "Read at") || strings.HasPrefix(t, "Previous ") ||
+					strings.HasPrefix(t, "Atomic ")) && i+1 < len(lines) {
+					tops = append(tops, strings.TrimSpace(lines[i+1]))
+				}
+			}
+			noise := len(tops) > 0
+			for _, t := range tops {
+				if !strings.Contains(t, "/statisticsPusher/statistics.") && !strings.Contains(t, "/lib/logger.") {
+					noise = false
+				}
+			}
+			if noise {
+				c.Count("race-reports-in-statistics-or-logger(ignored)", 1)
+				continue
+			}
+			if len(rep) > 3000 {
+				rep = rep[:3000]
+			}
+			c.Violation("race:"+strings.Join(tops, "|"), "the race detector reported a data race outside statistics/logging while the routing code ran", map[string]any{"report": rep})
+		}
+	}
+}
+
 func main() {
+	relaxRaceDetector()
 	c := vf.New("C11", "exploration")
 	if vf.IsWorker() {
 		worker(c, vf.WorkerArg())
@@ -55,6 +130,7 @@ func main() {
 		}(w)
 	}
 	wg.Wait()
+	raceReports(c)
 	for _, cat := range requiredCategories {
 		if c.DistinctCount("required:"+cat) == 0 {
 			c.Inconclusive("category-not-reached:"+cat, 1)
@@ -127,9 +203,9 @@ func replay(c *vf.Ctx) {
 	}
 	var f struct {
 		Witness struct {
-			Case    *Case  `json:"case"`
-			PointID int64  `json:"point_id"`
-			Query   string `json:"query"`
+			Case    *Case      `json:"case"`
+			PointID int64      `json:"point_id"`
+			Query   string     `json:"query"`
 			BB      *BBWitness `json:"blackbox"`
 		} `json:"witness"`
 	}
